@@ -2,67 +2,19 @@
   Spil.Lemmas.ConfUtil — helper lemmas for C19.
 -/
 import Spil.Model.Conf
+import Spil.Lemmas.Str
 
 /-! ### `Str.splitOn` / `Str.joinWith` -/
 
 namespace Str
 
-theorem splitOn_ne_nil (sep : Char) (s : Str) : splitOn sep s ≠ [] := by
-  induction s with
-  | nil => simp [splitOn]
-  | cons c cs ih =>
-    simp only [splitOn]; split
-    · simp
-    · split <;> simp_all
+/-- alias of `Str.join_split` (Lemmas/Str.lean) -/
+theorem joinWith_splitOn (sep : Char) (s : Str) : joinWith sep (splitOn sep s) = s := join_split sep s
 
-/-- `sep.join(s.split(sep)) == s` -/
-theorem joinWith_splitOn (sep : Char) (s : Str) : joinWith sep (splitOn sep s) = s := by
-  induction s with
-  | nil => simp [splitOn, joinWith]
-  | cons c cs ih =>
-    simp only [splitOn]; split
-    · next h =>
-      subst h
-      have := splitOn_ne_nil c cs
-      match hs : splitOn c cs with
-      | [] => exact absurd hs this
-      | p :: ps => rw [hs] at ih; simp [joinWith, ih]
-    · next h =>
-      match hs : splitOn sep cs with
-      | [] => exact absurd hs (splitOn_ne_nil sep cs)
-      | [p] => rw [hs] at ih; simp [joinWith] at ih ⊢; exact ih
-      | p :: q :: ps => rw [hs] at ih; simp [joinWith] at ih ⊢; exact ih
-
-/-- `sep.join(ps).split(sep) == ps` when `ps` is non-empty and no piece contains `sep` -/
+/-- alias of `Str.split_join` (Lemmas/Str.lean) -/
 theorem splitOn_joinWith (sep : Char) (ps : List Str) (hne : ps ≠ [])
-    (h : ∀ p ∈ ps, sep ∉ p) : splitOn sep (joinWith sep ps) = ps := by
-  induction ps with
-  | nil => exact absurd rfl hne
-  | cons p ps ih =>
-    cases ps with
-    | nil =>
-      simp only [joinWith]
-      have hp : sep ∉ p := h p (by simp)
-      clear ih h hne
-      induction p with
-      | nil => simp [splitOn]
-      | cons c cs ih2 =>
-        have hc : c ≠ sep := by intro e; apply hp; simp [e]
-        have hcs : sep ∉ cs := by intro e; apply hp; simp [e]
-        simp [splitOn, hc, ih2 hcs]
-    | cons q qs =>
-      have ih' := ih (by simp) (fun x hx => h x (by simp [hx]))
-      have hp : sep ∉ p := h p (by simp)
-      simp only [joinWith]
-      clear ih h hne
-      induction p with
-      | nil => simp [splitOn, ih']
-      | cons c cs ih2 =>
-        have hc : c ≠ sep := by intro e; apply hp; simp [e]
-        have hcs : sep ∉ cs := by intro e; apply hp; simp [e]
-        simp [splitOn, hc, ih2 hcs]
+    (h : ∀ p ∈ ps, sep ∉ p) : splitOn sep (joinWith sep ps) = ps := split_join sep ps hne h
 
-/-- no piece of `s.split(sep)` contains `sep` -/
 theorem not_mem_of_mem_splitOn (sep : Char) (s : Str) : ∀ p ∈ splitOn sep s, sep ∉ p := by
   induction s with
   | nil => simp [splitOn]
